@@ -146,12 +146,31 @@ pub fn s_forced_versions(thorough: bool) -> Space {
             }
         }
     }
+    // no level given (default Q) with a forced version: lengths around the version's capacity at Q and at L/M
+    // (a too small forced version must be refused, not answered with a weaker level)
+    for m in 0..3usize {
+        for v in 1..=40usize {
+            if !thorough && !(v <= 10 || v % 5 == 0) {
+                continue;
+            }
+            let mut lens = vec![r::cap(v, 2, m), r::cap(v, 2, m) + 1, r::cap(v, 1, m), r::cap(v, 0, m), r::cap(v, 0, m) + 1];
+            lens.dedup();
+            for len in lens {
+                for mode in [Some(m as u8), None] {
+                    cases.push(Case {
+                        input: spaces::Input::Fam(Family::Ctr, m as u8, len as u32),
+                        opts: Opts { mode, ecl: None, version: Some(v as u8), mask: None, order: (len % 24) as u8 },
+                    });
+                }
+            }
+        }
+    }
     Space {
         name: "S_forced_version".into(),
         describe: if thorough {
-            "complete triangle: every (mode, level, length <= capacity of v40) x every forced version 1..40".into()
+            "complete triangle: every (mode, level, length <= capacity of v40) x every forced version 1..40; no level given x forced v x lengths at the capacity of v at Q, M and L".into()
         } else {
-            "for every (mode, level, v): lengths {cap(v)-1, cap(v), cap(v)+1} x forced versions {1, v-1, v, v+1, 40}".into()
+            "for every (mode, level, v): lengths {cap(v)-1, cap(v), cap(v)+1} x forced versions {1, v-1, v, v+1, 40}; no level given x forced v x lengths at the capacity of v at Q, M and L".into()
         },
         cases,
         exhaustive: true,
@@ -312,6 +331,58 @@ pub fn s_long_auto(thorough: bool) -> Space {
     Space { name: "S_long_auto".into(), describe: format!("automatic mode on ctr content of each alphabet for every length 1..={}, and one foreign character (alnum-only / other) at every position of a {}-character digit or alphanumeric string", lens.len(), base_len), cases, exhaustive: true }
 }
 
+/// S_mixed_auto: strings made of a run of one class followed by a run of another (digits then alphanumeric
+/// letters, letters then digits, and the same with a lowercase tail), of every length up to `max_len` and every
+/// split point, clean and with one foreign byte at every position; automatic mode; version automatic and forced to
+/// the smallest sufficient version and the next one. A detection that scans in blocks, hands over between stages
+/// at the first class change, or looks at a prefix only, is wrong for some (length, split, position) triple.
+pub fn s_mixed_auto(max_len: usize, thorough: bool) -> Space {
+    let mut cases = vec![];
+    let runs: [(usize, usize); 4] = [(0, 1), (1, 0), (0, 2), (1, 2)];
+    let rep = |class: usize, i: usize| -> u8 {
+        match class {
+            0 => b'0' + ((i * 7 + 1) % 10) as u8,
+            1 => [b'A', b'Z', b' ', b'-', b'M', b'/', b'K'][i % 7],
+            _ => [b'a', b'z', b'k'][i % 3],
+        }
+    };
+    for len in 0..=max_len {
+        for split in 0..=len.min(if thorough { len } else { 20 }) {
+            for &(c1, c2) in &runs {
+                if split == 0 && c1 != 0 {
+                    continue;
+                }
+                let base: Vec<u8> = (0..len).map(|i| if i < split { rep(c1, i) } else { rep(c2, i) }).collect();
+                let mut variants: Vec<Vec<u8>> = vec![base.clone()];
+                if c2 != 2 {
+                    for p in split..len {
+                        for f in [b',', b'a'] {
+                            if !thorough && f == b'a' && p % 3 != 0 {
+                                continue;
+                            }
+                            let mut v = base.clone();
+                            v[p] = f;
+                            variants.push(v);
+                        }
+                    }
+                }
+                for v in variants {
+                    let m = r::auto_mode(&v);
+                    let minv = r::min_version(m, 2, v.len());
+                    cases.push(Case::new(v.clone(), Opts::default()));
+                    if let Some(mv) = minv {
+                        if (len + split) % 4 == 0 {
+                            cases.push(Case::new(v.clone(), Opts { version: Some(mv as u8), ..Opts::default() }));
+                            cases.push(Case::new(v, Opts { version: Some((mv + 1).min(40) as u8), ecl: Some(0), ..Opts::default() }));
+                        }
+                    }
+                }
+            }
+        }
+    }
+    Space { name: "S_mixed_auto".into(), describe: format!("two-run strings (digits|letters then letters|digits|lowercase) of every length 0..={} and every split point{}, clean and with one foreign byte (',' and 'a') at every position of the second run; automatic mode; version automatic and (every fourth) forced to the smallest sufficient version and the next one", max_len, if thorough { "" } else { " <= 20" }), cases, exhaustive: true }
+}
+
 fn c09_extra(case: &Case, _input: &[u8], out: &Outcome) -> Vec<Finding> {
     if case.opts.mode.is_none() {
         if let Outcome::Panic(msg) = out {
@@ -334,6 +405,8 @@ pub fn c09(ctx: &Ctx) -> Collector {
     // content permits): a detection that changes with the length (e.g. a shortcut for long inputs) shows here
     run_space(&col, 4, &spaces::s_len_tier(Family::Ctr, 7200, ctx.tier.thorough()), &p, false, &c09_extra);
     run_space(&col, 5, &spaces::s_pair_ctx(ctx.tier.thorough()), &p, false, &c09_extra);
+    run_space(&col, 6, &s_mixed_auto(if ctx.tier.thorough() { 64 } else { 48 }, ctx.tier.thorough()), &p, false, &c09_extra);
+    run_space(&col, 7, &spaces::s_opt(ctx.tier.thorough()), &p, false, &c09_extra);
     col
 }
 
@@ -362,6 +435,7 @@ pub fn c10(ctx: &Ctx) -> Collector {
     run_space(&col, 21, &spaces::s_pair_ctx(ctx.tier.thorough()), &p, false, &no_extra);
     run_space(&col, 22, &s_long_auto(ctx.tier.thorough()), &p, false, &no_extra);
     run_space(&col, 23, &spaces::s_order(ctx.tier.thorough()), &p, false, &no_extra);
+    run_space(&col, 25, &s_mixed_auto(if ctx.tier.thorough() { 64 } else { 48 }, ctx.tier.thorough()), &p, false, &no_extra);
     run_space(&col, 24, &s_len_utf8(ctx.tier.thorough()), &p, false, &no_extra);
     seeded_supplement(ctx, &col, 20, &p, false);
     col
